@@ -161,6 +161,16 @@ Theorem C03_derive_restamp : forall ops d,
 Proof. exact derive_build_stamps. Qed.
 Print Assumptions C03_derive_restamp.
 
+(** NewDataMessageFromHeader takes a valid data header over unchanged *)
+Theorem C03_from_header : forall h body,
+  hdr_ok h -> h4 h = 0 -> h5 h = 0 -> (wait_bit h = true -> function_of h mod 2 <> 0) ->
+  new_data_message_from_header h (ItemOk body) = Ok (mkD h body).
+Proof. exact from_header_ok. Qed.
+Theorem C03_from_header_rejects : forall h it,
+  (h4 h <> 0 -> new_data_message_from_header h it = Err HPType) /\
+  (h4 h = 0 -> h5 h <> 0 -> new_data_message_from_header h it = Err HSType).
+Proof. exact from_header_rejects. Qed.
+
 (** system bytes <-> message id *)
 Theorem C03_system_bytes_id : forall id, 0 <= id < 4294967296 -> from_system_bytes (to_system_bytes id) = id.
 Proof. exact system_bytes_roundtrip. Qed.
